@@ -96,6 +96,13 @@ def product(seq, d2):
     return out
 
 
+def _site_control(d, hist):
+    c = Control(d)
+    for st, po, m in hist:
+        c.add_single(st, m.copy(), po)
+    return c
+
+
 def run(chk):
     rng = chk.rng
     thorough = chk.tier == "thorough"
@@ -221,6 +228,61 @@ def run(chk):
                          "hist": [(a, b, c) for a, b, c, _ in hist]})
             chk.count("chain")
             chk.case(meta[-1], ("chain", nsites, d, len(hist), post))
+
+    # ---- (d) the rules through PT-TEBD: an uncoupled chain with zero generators only sees its controls; every site must
+    # record what the single-system computation with the same controls records ------------------------------------------
+    for i in range(40 if thorough else 12):
+        nsites = rng.randint(2, 3)
+        d = 2
+        d2 = 4
+        N = rng.randint(1, 3)
+        cc = ChainControl([d] * nsites)
+        per_site = [[] for _ in range(nsites)]
+        for _ in range(rng.randint(1, 5)):
+            site, step, post = rng.randrange(nsites), rng.randint(0, N), rng.random() < 0.5
+            a_ = np.array([[rng.gauss(0, 1) + 1j * rng.gauss(0, 1) for _ in range(d)] for _ in range(d)])
+            kind = rng.choice(["unitary", "left", "channel"])
+            if kind == "unitary":
+                q_, _ = np.linalg.qr(a_)
+                m = np.kron(q_, q_.conj())
+            elif kind == "left":
+                m = np.kron(a_ / 2, np.eye(d))                   # non-trace-preserving
+            else:
+                m = 0.5 * np.kron(a_, a_.conj()) / max(1.0, np.abs(a_).max() ** 2) + 0.5 * np.eye(d2)
+            cc.add_single_site_control(m.copy(), site, step, post)
+            per_site[site].append((step, post, m))
+        rhos = [oqupy.operators.spin_dm(rng.choice(["x+", "y-", "z+"])) for _ in range(nsites)]
+        info = {"kind": "PtTebd+ChainControl", "sites": nsites, "N": N, "controls": [[(st, po) for st, po, _ in h] for h in per_site]}
+        try:
+            chain = oqupy.SystemChain([d] * nsites)
+            tb = oqupy.PtTebd(initial_augmented_mps=oqupy.AugmentedMPS(rhos), system_chain=chain, process_tensors=[None] * nsites,
+                              parameters=oqupy.PtTebdParameters(dt=0.1, order=1, epsrel=1e-12), dynamics_sites=list(range(nsites)),
+                              chain_control=cc)
+            res = quiet(tb.compute, N, progress_type="silent")
+            ident = np.identity(d2, dtype=complex)
+            worst = 0.0
+            for site in range(nsites):
+                ctrl = Control(d)
+                for st, po, m in per_site[site]:
+                    ctrl.add_single(st, m.copy(), po)
+                ref = quiet(oqupy.compute_dynamics, InjSystem(d, [(ident, ident)] * N), initial_state=rhos[site], dt=0.1, num_steps=N,
+                            control=ctrl, progress_type="silent")
+                got = np.array(res["dynamics"][site].states)
+                # the chain normalises by the total norm: compare up to the product of the other sites' traces
+                others = np.array([np.prod([np.trace(quiet(oqupy.compute_dynamics, InjSystem(d, [(ident, ident)] * N), initial_state=rhos[o],
+                                   dt=0.1, num_steps=N, control=_site_control(d, per_site[o]), progress_type="silent").states[k])
+                                   for o in range(nsites) if o != site]) for k in range(N + 1)])
+                want = np.array([np.array(ref.states[k]) * others[k] for k in range(N + 1)])
+                worst = max(worst, np.abs(got - want).max())
+        except Exception as ex:
+            chk.fail("chain-control-raises", f"PtTebd with a ChainControl raises {ex!r}", info)
+            continue
+        chk.search_cases += 1
+        chk.count("pttebd_chain_control")
+        chk.case(info, ("tebdctl", nsites, N, str(info["controls"])))
+        if worst > 1e-9:
+            chk.fail("chain-control-differs-from-single-system", f"PtTebd with a ChainControl: a site's recorded states differ by {worst:.2e} from the "
+                     "single-system computation with the same controls (time, pre/post side or order)", info)
 
     vals, errs = run_cases("C18", HEADER, exprs)
     for e in errs:
